@@ -42,6 +42,10 @@ def run(ck, focus, nfiles, label=None):
         for k, v in stats.items():
             tot[k] = tot.get(k, 0) + v
         for name, desc, xf in nm:
+            if name == '!raised':
+                ck.violation({'site': 'trace_engine', 'clause': 'raised', 'what': desc.split(':')[0], 'focus': focus}, {'rules_text': xf, 'error': desc},
+                             'classification raised %s on a generated rules file (match / normalize_merchant must return for every transaction)' % desc)
+                continue
             if not xf:
                 names.setdefault(desc, set()).add(name)
     # the Unknown merchant name depends only on the description (C01): pairs (description id, name id), judged by the spec
